@@ -12,8 +12,13 @@ func init() {
 				clCursorMovesFiltered(c)
 				clRefreshOnlyOnVisible(c)
 				clSkiplistNextAdvancesOnce(c)
+				clCursorRevalidated(c)
 			})
-			c.Do("C09.b", "L4 seek comparator role", 3, func() { clComparatorRoles(c, map[string]bool{"field:store": true}) })
+			c.Do("C09.b", "L4+L5 seek comparator role and tables", 8, func() {
+				clComparatorRoles(c, map[string]bool{"field:store": true})
+				clItemComparatorTables(c)
+				clComparatorWiring(c)
+			})
 			c.Do("C09.c", "L11 refresh copies before dropping the session", 2, func() { clRefreshCopies(c); clSkiplistRefreshOrder(c) })
 			c.Do("C09.d", "L5 visibility decision table", 2, func() { clVisibilityTable(c) })
 		},
